@@ -295,6 +295,18 @@ def vectors(res, base, rnd):
     os.makedirs(d, exist_ok=True)
     cases, unreal = [], 0
     dropper = can_drop_privileges()
+    if dropper:
+        # positive control: a world-readable file in the scratch directory must be readable for the unprivileged
+        # user, otherwise (restrictive umask, a parent directory such as /root that cannot be traversed) every
+        # path looks missing to it and the fact path=denied cannot be realised here
+        os.chmod(d, 0o755)
+        ctl = os.path.join(d, "control.h")
+        with open(ctl, "w") as fh:
+            fh.write("int control;\n")
+        os.chmod(ctl, 0o644)
+        if subprocess.run(NOBODY + ["cat", ctl], stdout=subprocess.PIPE, stderr=subprocess.PIPE).returncode != 0:
+            dropper = False
+            res.notes.append("the scratch directory cannot be reached by an unprivileged user (umask / parent directory)")
     if not dropper:
         res.notes.append("cannot run as an unprivileged user here: the fact path=denied (read bits set, access denied) is not realised")
     for i, v in enumerate(sorted(vecs, key=json.dumps)):
@@ -315,6 +327,7 @@ def vectors(res, base, rnd):
         for sym in ([False, True] if f["path"] in ("ok", "dir", "missing") else [False]):
             cd = os.path.join(d, "v%03d%s" % (i, "s" if sym else ""))
             os.makedirs(cd, exist_ok=True)
+            os.chmod(cd, 0o755)
             text = BAD_H if f["clang"] == "reject" else GOOD_H
             hp = os.path.join(cd, "in.h")
             if f["path"] == "ok":
